@@ -76,6 +76,7 @@
 #include "token_pairs.h"
 #include "writer.h"
 #include "version.h"
+#include "zip.h"
 
 
 // Basic parser function declarations
@@ -2911,7 +2912,7 @@ void mmd_string_convert_to_file(const char * source, unsigned long extensions, s
 
 	mmd_engine_set_language(e, language);
 
-	mmd_engine_parse_string(e);
+	mmd_engine_convert_to_file(e, format, directory, filepath);
 
 	mmd_engine_free(e, true);			// The engine has a private copy of source, so free it.
 }
@@ -2936,43 +2937,25 @@ void mmd_d_string_convert_to_file(DString * source, unsigned long extensions, sh
 void mmd_engine_convert_to_file(mmd_engine * e, short format, const char * directory, const char * filepath) {
 	FILE * output_stream;
 
-	DString * output = d_string_new("");
+	// Produce exactly what the convert_to_data variant (and the command line tool) produces
+	DString * result = mmd_engine_convert_to_data(e, format, directory);
 
-	mmd_engine_parse_string(e);
-
-	mmd_engine_export_token_tree(output, e, format);
-
-	// Now we have the input source string, the output string, the (modified) parse tree, and engine stacks
-
-	switch (format) {
-		case FORMAT_EPUB:
-			epub_write_wrapper(filepath, output, e, directory);
-			break;
-
-		case FORMAT_TEXTBUNDLE:
-			// TODO: Need to implement this
-			break;
-
-		case FORMAT_TEXTBUNDLE_COMPRESSED:
-			textbundle_write_wrapper(filepath, output, e, directory);
-			break;
-
-		default:
-
-			// Basic formats just write to file
-			if (!(output_stream = fopen(filepath, "w"))) {
-				// Failed to open file
-				perror(filepath);
-			} else {
-				fputs(output->str, output_stream);
-				fputc('\n', output_stream);
-				fclose(output_stream);
-			}
-
-			break;
+	if (result == NULL) {
+		return;
 	}
 
-	d_string_free(output, true);
+	if (format == FORMAT_TEXTBUNDLE) {
+		// The uncompressed TextBundle is a directory
+		unzip_data_to_path(result->str, result->currentStringLength, filepath);
+	} else if (!(output_stream = fopen(filepath, "wb"))) {
+		// Failed to open file
+		perror(filepath);
+	} else {
+		fwrite(result->str, result->currentStringLength, 1, output_stream);
+		fclose(output_stream);
+	}
+
+	d_string_free(result, true);
 }
 
 
